@@ -421,7 +421,15 @@ class Client:
             nblines=1,
         )
         if not challenge:
-            return False
+            # The server may send its final data along with the
+            # completion response: OK (SASL "...") (RFC 5804, 2.1)
+            m = re.match(r'\(SASL "([^"]*)"\)', data or "")
+            if code != "OK" or m is None:
+                return False
+            if not dmd5.check_last_challenge(login, password, m.group(1)):
+                self.errmsg = "Bad challenge received from server"
+                return False
+            return True
         if not dmd5.check_last_challenge(login, password, challenge):
             self.errmsg = "Bad challenge received from server"
             return False
